@@ -28,7 +28,9 @@ def make_walk(rng, T, A, onedim=False, identical=False, static_from=None):
     return np.cumsum(steps, axis=0)
 
 
-def build(rng, fam, orient, w, species, dt_fs=2, temp=500):
+def build(rng, fam, orient, w, species, dt_fs=2, temp=500, as_displacements=False):
+    """The walk w (unwrapped, integer grid units) as a Trajectory: from wrapped, lattice-shifted positions, or -- the constructor's
+    other form -- from the per-frame displacements and the base positions (what apply_drift_correction builds)."""
     from pymatgen.core import Element, Lattice, Species
     from gemdat import Trajectory
     G = gen.FAMILIES[fam]
@@ -37,6 +39,11 @@ def build(rng, fam, orient, w, species, dt_fs=2, temp=500):
     base = rng.integers(0, N, size=(A, 3))
     raw = np.mod(base[None] + w, N) + N * rng.integers(-2, 3, size=(T, A, 3))
     mk = Species if rng.random() < 0.5 else Element
+    if as_displacements:
+        steps = np.diff(w, axis=0, prepend=w[:1])
+        traj = Trajectory(species=[mk(s) for s in species], coords=steps / N, lattice=Lattice(M), time_step=dt_fs * 1e-15,
+                          metadata={'temperature': temp}, coords_are_displacement=True, base_positions=(base + w[0]) / N)
+        return traj, G
     traj = Trajectory(species=[mk(s) for s in species], coords=raw / N, lattice=Lattice(M), time_step=dt_fs * 1e-15,
                       metadata={'temperature': temp})
     return traj, G
